@@ -443,7 +443,8 @@ def decode_payload(mtype, t, ms, d, problems, where):
                 "harmonic_types": _arr(ms.get(3), "B", 16, problems, where, "harmonic types")}
     if mtype in ("Analog generator", "Generator"):
         if 0 not in ms:
-            return {"drawn_waveform": list(DRAWN_DEFAULT)}  # documented: not written when unchanged
+            # documented: not written when unchanged; format mono 8-bit, 44100 Hz
+            return {"drawn_waveform": list(DRAWN_DEFAULT), "drawn_waveform_format": 1, "drawn_waveform_freq": 44100}
         ent = ms[0]
         if len(ent["chdt"]) != 32:
             problems.append(f"{where}: drawn waveform has {len(ent['chdt'])} bytes, documented 32")
@@ -451,7 +452,8 @@ def decode_payload(mtype, t, ms, d, problems, where):
             problems.append(f"{where}: drawn waveform CHFF {ent['chff']} (documented mono 8-bit = 1)")
         if ent["chfr"] not in (None, 44100):
             problems.append(f"{where}: drawn waveform CHFR {ent['chfr']} (documented 44100)")
-        return {"drawn_waveform": [b - 256 if b > 127 else b for b in ent["chdt"]]}
+        return {"drawn_waveform": [b - 256 if b > 127 else b for b in ent["chdt"]],
+                "drawn_waveform_format": ent["chff"] or 1, "drawn_waveform_freq": 44100 if ent["chfr"] is None else ent["chfr"]}
     if mtype == "FMX":
         return {"custom_waveform": _arr(ms.get(0), "f", 256, problems, where, "custom waveform")}
     if mtype == "Vorbis player":
@@ -912,8 +914,9 @@ def encode_payload(m, t, ch, depth):
         out.append((2, bytes(pl["harmonic_widths"]), None, None))
         out.append((3, bytes(pl["harmonic_types"]), None, None))
     elif ty in ("Analog generator", "Generator"):
-        if ch.drawn_always or list(pl["drawn_waveform"]) != DRAWN_DEFAULT:
-            ff, fr = (None, None) if ch.drawn_omit_ff_fr else (1, 44100)
+        if ch.drawn_always or list(pl["drawn_waveform"]) != DRAWN_DEFAULT or (pl.get("drawn_waveform_format", 1), pl.get("drawn_waveform_freq", 44100)) != (1, 44100):
+            fmt, freq = pl.get("drawn_waveform_format", 1), pl.get("drawn_waveform_freq", 44100)
+            ff, fr = (None, None) if (ch.drawn_omit_ff_fr and (fmt, freq) == (1, 44100)) else (fmt, freq)
             out.append((0, bytes(v & 0xFF for v in pl["drawn_waveform"]), ff, fr))
         if ty == "Analog generator":
             out.append((1, encode_options(m, t), None, None))
